@@ -130,6 +130,8 @@ GRID_SCOPES = [
 GRID_REGEXES = [
     '.*', 'blk0', 'blk0/', 'blk1/fc1/out', 'fc1', '^blk', '^fc$', 'fc', 'out;?$', 'enc|dec',
     'blk[01]/fc1', ';', 'head;logits:0', 'nomatch_zzz', 'conv', '/l0/', 'x:0', '^$', 'blk1',
+    # '.' as a wildcard inside otherwise plain names, and as a literal
+    'blk0.fc1', 'fc1.out', 'enc.conv', 'l0.attn', 'blk1.fc1.out', 'x.0',
 ]
 
 
